@@ -81,7 +81,8 @@ def _derived_of(job):
 
 
 def _incr(job):
-    pat, date, kw, f, nd, mode = job
+    pat, date, kw, f, nd, mode = job[:6]
+    extra = job[6] if len(job) > 6 else None
     from bumpver import v1version
     v = mk(date, **kw)
     old = v1version.format_version(v, pat)
@@ -104,9 +105,13 @@ def _incr(job):
             o = [0, 0]
         args[0] = "lib:incr"
     else:
+        if extra is not None:
+            args += extra
+        elif (len(old) + date.toordinal()) % 4 == 0:
+            args.append("--pin-increments")         # speaks of INC0 / INC1, which legacy patterns do not have: no effect on a legacy bump
         r = drive.cli(args)
         o = glue.cp(r.new_version()) if r.exit == 0 and r.new_version() else ([0, 0] if r.exc and "Overflow" in r.exc else [0])
-    return dict(ev="incr1", P=parse_pat(pat), old=glue.cp(old), f=f, date=nd.toordinal(), out=o, lex=(pat == "{pycalver}" and f["tag"] == "none"),
+    return dict(ev="incr1", P=parse_pat(pat), old=glue.cp(old), f=f, date=nd.toordinal(), out=o, lex=(pat == "{pycalver}"),
                 dbg=" ".join(args), pat=pat, mode=mode)
 
 
@@ -192,6 +197,13 @@ def run(ctx):
         f = dict(major=rng.random() < .2 and ("MAJOR" in pat or "semver" in pat), minor=rng.random() < .2 and ("MINOR" in pat or "MM" in pat or "semver" in pat),
                  patch=rng.random() < .3 and ("PATCH" in pat or "PP" in pat or "semver" in pat), tag=rng.choice(["none", "none", "none", "beta", "final", "rc"]), pin_date=rng.random() < .15)
         ijobs.append((pat, d, kw(), f, min(d + dt.timedelta(days=rng.choice([0, 1, 40, 400, -30])), dt.date(2099, 12, 28)), "lib" if i % 2 else "cli"))
+    # every tag transition of the two tagged composites within one day, with and without the option that speaks of INC0 / INC1 only
+    for pat in ("{pycalver}", "v{year}{build}{release}"):
+        for old_tag in ("final", "alpha", "beta", "rc", "dev", "post"):
+            for new_tag in ("none", "final", "beta", "rc"):
+                for extra in ([], ["--pin-increments"]):
+                    d = rdate()
+                    ijobs.append((pat, d, dict(kw(), tag=old_tag), dict(major=False, minor=False, patch=False, tag=new_tag, pin_date=False), d, "cli", extra))
     events += drive.pmap(_incr, ijobs, hooks=False, chunksize=100)
     cjobs = []
     from bumpver import v1version
